@@ -3,7 +3,7 @@ import Gp.Model.Packet
   Helper lemmas for the packet-builder framework (C01 framework part, C03).  Core Lean only.
 
   First the *definitions* that occur in the statements of the property theorems
-  (`Ext`, `force`, `DBeh`/`D`, `acts`, `NoScriptedFail`, `NoSetErr`, `Contract`, …), then the
+  (`Ext`, `force`, `DBeh`/`D`, `acts`, `NoScriptedFail`, `NoSetErr`, …; `Contract` is in PacketContract.lean), then the
   proof machinery.
 -/
 namespace Gp.Pkt
@@ -30,14 +30,14 @@ def force (tab : Table) : Nat → LPkt → Option Pkt
 /-- Discipline of one decoder behaviour on an input of `len` bytes (`la` = the layer added last by
     this behaviour so far): builder calls, then `return nil/err`, a panic, or
     `return p.NextDecoder(d)` — the latter only after an AddLayer of its own whose payload is
-    strictly shorter than the input (progress). -/
+    strictly shorter than the input, or empty (progress). -/
 def DBeh (len : Nat) : Option Layer → Beh → Prop
   | _, .ret _ => True
   | _, .panic => True
   | _, .act (.add l) k => DBeh len (some l) k
   | la, .act _ k => DBeh len la k
   | _, .next none _ kErr => kErr = .ret true
-  | la, .next (some _) kOk kErr => kOk = .ret false ∧ kErr = .ret true ∧ ∃ l, la = some l ∧ l.payLen < len
+  | la, .next (some _) kOk kErr => kOk = .ret false ∧ kErr = .ret true ∧ ∃ l, la = some l ∧ (l.payLen < len ∨ l.payLen = 0)
 
 /-- The discipline D on decoder tables (C03). -/
 def D (tab : Table) : Prop := ∀ d data off len, DBeh len none (tab d data off len)
@@ -69,6 +69,11 @@ def eagerFailed (tab : Table) (fuel : Nat) (data : Bytes) (first : Option DecId)
     | some _ => true
     | none => false
 
+/-- A decoder invocation failed: it returned an error or panicked. -/
+def outFailed : Out → Bool
+  | .ret false => false
+  | _ => true
+
 /-- Did the decoder run by this decodeNextLayer fail? -/
 def stepFailed (tab : Table) (lp : LPkt) : Bool :=
   match lp.next with
@@ -76,29 +81,12 @@ def stepFailed (tab : Table) (lp : LPkt) : Bool :=
   | some d =>
     let w := inputWin lp.p
     if w.2 = 0 then false
-    else match (lazyBeh (tab d lp.p.data w.1 w.2) { lp with next := none }).2 with
-      | .ret false => false
-      | _ => true
+    else outFailed (lazyBeh (tab d lp.p.data w.1 w.2) { lp with next := none }).2
 
 /-- Did any decoder fail while forcing a lazy packet? -/
 def forceFailed (tab : Table) : Nat → LPkt → Bool
   | 0, _ => false
   | n + 1, lp => if lp.next.isNone then false else stepFailed tab lp || forceFailed tab n (step tab true lp).1
-
-/-- The failure contract of C01 on a finished packet. -/
-def Contract (failed : Bool) (q : Pkt) : Prop :=
-  if failed then
-    ∃ pre f, q.layers = pre ++ [f] ∧ f.fail = true ∧ f.payLen = 0 ∧ (∀ l ∈ pre, l.fail = false)
-      ∧ q.failure = some f ∧ q.last = some f
-  else (∀ l ∈ q.layers, l.fail = false) ∧ q.failure = none
-
-/-- Weaker contract when decoders may call SetErrorLayer themselves: the error layer is still
-    non-nil, and the DecodeFailure is still the unique, last layer. -/
-def ContractWeak (failed : Bool) (q : Pkt) : Prop :=
-  if failed then
-    ∃ pre f, q.layers = pre ++ [f] ∧ f.fail = true ∧ f.payLen = 0 ∧ (∀ l ∈ pre, l.fail = false)
-      ∧ q.failure.isSome ∧ q.last = some f
-  else (∀ l ∈ q.layers, l.fail = false)
 
 /-! ## Ext is a preorder; every builder call extends -/
 
@@ -416,7 +404,7 @@ theorem DBeh_sim (run : DecId → Nat → Nat → Pkt → Option (Pkt × Out)) (
     DBeh len la b → (∀ l, la = some l → p.last = some l) →
     (∃ p2 out, lazyBeh b ⟨p, nx⟩ = (⟨p2, nx⟩, out) ∧ eagerBeh run b p = some (p2, out)
         ∧ (out = .ret false ∨ out = .ret true ∨ out = .panic))
-    ∨ (∃ p2 d' l, lazyBeh b ⟨p, nx⟩ = (⟨p2, some d'⟩, .ret false) ∧ p2.last = some l ∧ l.payLen < len
+    ∨ (∃ p2 d' l, lazyBeh b ⟨p, nx⟩ = (⟨p2, some d'⟩, .ret false) ∧ p2.last = some l ∧ (l.payLen < len ∨ l.payLen = 0)
         ∧ eagerBeh run b p = if l.payLen = 0 then some (p2, .ret false) else run d' l.poff l.payLen p2) := by
   induction b with
   | ret e =>
@@ -457,7 +445,7 @@ theorem DBeh_sim (run : DecId → Nat → Nat → Pkt → Option (Pkt × Out)) (
       subst hk
       exact Or.inl ⟨p, .ret true, rfl, rfl, by simp⟩
     | some d' =>
-      obtain ⟨hk1, hk2, l, hl, hlt⟩ : kOk = .ret false ∧ kErr = .ret true ∧ ∃ l, la = some l ∧ l.payLen < len := by
+      obtain ⟨hk1, hk2, l, hl, hlt⟩ : kOk = .ret false ∧ kErr = .ret true ∧ ∃ l, la = some l ∧ (l.payLen < len ∨ l.payLen = 0) := by
         simpa [DBeh] using hD
       subst hk1 hk2
       have hlast := hla l hl
@@ -470,15 +458,30 @@ theorem DBeh_sim (run : DecId → Nat → Nat → Pkt → Option (Pkt × Out)) (
 theorem inputWin_of_last (p : Pkt) (l : Layer) (h : p.last = some l) : inputWin p = (l.poff, l.payLen) := by
   simp [inputWin, h]
 
-/-- decodeNextLayer when there is input and a decoder. -/
-theorem step_run (tab : Table) (rc : Bool) (p : Pkt) (d : DecId) (off len : Nat)
-    (hw : inputWin p = (off, len)) (hlen : len ≠ 0) :
-    step tab rc ⟨p, some d⟩ =
-      match lazyBeh (tab d p.data off len) ⟨p, none⟩ with
-      | (lp2, .ret false) => (lp2, false)
-      | (lp2, .ret true)  => ({ lp2 with p := addFinal lp2.p }, false)
-      | (lp2, .panic)     => if rc then ({ lp2 with p := addFinal lp2.p }, false) else (lp2, true) := by
-  simp [step, hw, hlen]
+/-- decodeNextLayer when there is input and a decoder, by the decoder's outcome. -/
+theorem step_run_ok (tab : Table) (rc : Bool) (p : Pkt) (d : DecId) (off len : Nat) (lp2 : LPkt)
+    (hw : inputWin p = (off, len)) (hlen : len ≠ 0)
+    (h : lazyBeh (tab d p.data off len) ⟨p, none⟩ = (lp2, .ret false)) :
+    step tab rc ⟨p, some d⟩ = (lp2, false) := by
+  simp [step, hw, hlen, h]
+
+theorem step_run_err (tab : Table) (rc : Bool) (p : Pkt) (d : DecId) (off len : Nat) (lp2 : LPkt)
+    (hw : inputWin p = (off, len)) (hlen : len ≠ 0)
+    (h : lazyBeh (tab d p.data off len) ⟨p, none⟩ = (lp2, .ret true)) :
+    step tab rc ⟨p, some d⟩ = ({ lp2 with p := addFinal lp2.p }, false) := by
+  simp [step, hw, hlen, h]
+
+theorem step_run_panic (tab : Table) (p : Pkt) (d : DecId) (off len : Nat) (lp2 : LPkt)
+    (hw : inputWin p = (off, len)) (hlen : len ≠ 0)
+    (h : lazyBeh (tab d p.data off len) ⟨p, none⟩ = (lp2, .panic)) :
+    step tab true ⟨p, some d⟩ = ({ lp2 with p := addFinal lp2.p }, false) := by
+  simp [step, hw, hlen, h]
+
+theorem step_run_panic_skip (tab : Table) (p : Pkt) (d : DecId) (off len : Nat) (lp2 : LPkt)
+    (hw : inputWin p = (off, len)) (hlen : len ≠ 0)
+    (h : lazyBeh (tab d p.data off len) ⟨p, none⟩ = (lp2, .panic)) :
+    step tab false ⟨p, some d⟩ = (lp2, true) := by
+  simp [step, hw, hlen, h]
 
 theorem step_empty (tab : Table) (rc : Bool) (p : Pkt) (d : DecId) (off : Nat)
     (hw : inputWin p = (off, 0)) : step tab rc ⟨p, some d⟩ = (⟨p, none⟩, false) := by
@@ -497,17 +500,16 @@ theorem eager_force_sim (tab : Table) (hD : D tab) : ∀ (fuelE fuelL : Nat) (d 
   | succ n ih =>
     intro fuelL d off len p h0 hw hle hlf
     obtain ⟨m, rfl⟩ : ∃ m, fuelL = m + 1 := ⟨fuelL - 1, by omega⟩
-    rw [force_succ_of_some tab m ⟨p, some d⟩ d rfl, step_run tab true p d off len hw h0]
+    rw [force_succ_of_some tab m ⟨p, some d⟩ d rfl]
     simp only [eagerDec]
     rcases DBeh_sim (eagerDec tab n) len (tab d p.data off len) none p none (hD d p.data off len) (by intro l h; cases h) with
       ⟨p2, out, hl, he, ho⟩ | ⟨p2, d', l, hl, hlast, hlt, he⟩
     · refine ⟨p2, out, he, ?_⟩
-      rw [hl]
       rcases ho with rfl | rfl | rfl
-      · simp [finish, force_of_none]
-      · simp [finish, force_of_none]
-      · simp [finish, force_of_none]
-    · rw [hl, he]
+      · rw [step_run_ok tab true p d off len _ hw h0 hl]; simp [finish, force_of_none]
+      · rw [step_run_err tab true p d off len _ hw h0 hl]; simp [finish, force_of_none]
+      · rw [step_run_panic tab p d off len _ hw h0 hl]; simp [finish, force_of_none]
+    · rw [step_run_ok tab true p d off len _ hw h0 hl, he]
       simp only
       by_cases hz : l.payLen = 0
       · refine ⟨p2, .ret false, by simp [hz], ?_⟩
@@ -532,8 +534,106 @@ theorem eagerDec_terminates (tab : Table) (hD : D tab) : ∀ (fuel : Nat) (d : D
     · exact ⟨_, he⟩
     · rw [he]
       by_cases hz : l.payLen = 0
-      · exact ⟨_, by simp [hz]⟩
+      · exact ⟨(p2, .ret false), by simp [hz]⟩
       · simp only [hz, if_false]
         exact ih d' l.poff l.payLen p2 (by omega)
+
+/-- After an accessor that forces all layers the lazy packet IS the eager packet. -/
+theorem force_all_state (tab : Table) (n : Nat) (lp : LPkt) (q : Pkt) (f : Pkt → Ans)
+    (h : force tab n lp = some q) :
+    (afterLoop lp (loopUntil tab true (fun _ => false) n lp) f).1 = ⟨q, none⟩ := by
+  obtain ⟨lp', h1, h2, h3⟩ := loopUntil_force tab (fun _ => false) n lp q h
+  rw [h1]
+  simp only [afterLoop]
+  rcases h3 with h3 | h3
+  · simp at h3
+  · rw [force_of_none _ _ _ h3] at h2
+    cases lp' with
+    | mk p' nx => simp at h3 h2; subst h3 h2; rfl
+
+/-! ## Scripted tables: the discipline as a decidable check on scripts -/
+
+def LSpec.progress : LSpec → Bool
+  | .rel _ _ _ skip pl fail => fail || decide (1 ≤ skip) || pl == 0
+  | .abs _ _ _ _ _ plen fail => fail || plen == 0
+
+/-- The discipline on a script (what harness/cmd/gp-pkt `inD` computes). -/
+def SBeh.disc : Option LSpec → SBeh → Bool
+  | _, .ret _ => true
+  | _, .panic => true
+  | _, .act (.add s) k => SBeh.disc (some s) k
+  | la, .act _ k => SBeh.disc la k
+  | _, .next none _ kErr => match kErr with | .ret true => true | _ => false
+  | la, .next (some _) kOk kErr =>
+    (match kOk with | .ret false => true | _ => false) && (match kErr with | .ret true => true | _ => false)
+      && (match la with | some s => s.progress | none => false)
+
+theorem LSpec.progress_sound (s : LSpec) (off len : Nat) (h : s.progress = true) :
+    (s.mk' off len).payLen < len ∨ (s.mk' off len).payLen = 0 := by
+  cases s with
+  | rel id ty c skip pl fail =>
+    simp only [LSpec.progress, Bool.or_eq_true, decide_eq_true_eq, beq_iff_eq] at h
+    simp only [LSpec.mk', Layer.payLen]
+    by_cases hf : fail = true
+    · right; simp [hf]
+    · simp only [hf, Bool.false_eq_true, if_false]
+      rcases h with (h | h) | h
+      · exact absurd h hf
+      · simp only [Nat.min_def]; split <;> split <;> omega
+      · right; subst h; simp
+  | abs id ty coff clen poff plen fail =>
+    simp only [LSpec.progress, Bool.or_eq_true, beq_iff_eq] at h
+    simp only [LSpec.mk', Layer.payLen]
+    right
+    rcases h with h | h
+    · simp [h]
+    · simp [h]
+
+theorem SBeh.disc_sound (off len : Nat) (s : SBeh) : ∀ (la : Option LSpec),
+    SBeh.disc la s = true → DBeh len (la.map (fun x => x.mk' off len)) (s.inst off len) := by
+  induction s with
+  | ret e => intro la _; simp [SBeh.inst, DBeh]
+  | panic => intro la _; simp [SBeh.inst, DBeh]
+  | act a k ih =>
+    intro la h
+    cases a with
+    | add sp => simpa [SBeh.inst, SAct.inst, DBeh] using ih (some sp) (by simpa [SBeh.disc] using h)
+    | setLink sp => simpa [SBeh.inst, SAct.inst, DBeh] using ih la (by simpa [SBeh.disc] using h)
+    | setNet sp => simpa [SBeh.inst, SAct.inst, DBeh] using ih la (by simpa [SBeh.disc] using h)
+    | setTrans sp => simpa [SBeh.inst, SAct.inst, DBeh] using ih la (by simpa [SBeh.disc] using h)
+    | setApp sp => simpa [SBeh.inst, SAct.inst, DBeh] using ih la (by simpa [SBeh.disc] using h)
+    | setErr sp => simpa [SBeh.inst, SAct.inst, DBeh] using ih la (by simpa [SBeh.disc] using h)
+    | trunc => simpa [SBeh.inst, SAct.inst, DBeh] using ih la (by simpa [SBeh.disc] using h)
+  | next d kOk kErr _ _ =>
+    intro la h
+    cases d with
+    | none =>
+      simp only [SBeh.disc] at h
+      split at h
+      · simp [SBeh.inst, DBeh]
+      · simp at h
+    | some d' =>
+      simp only [SBeh.disc, Bool.and_eq_true] at h
+      obtain ⟨⟨h1, h2⟩, h3⟩ := h
+      split at h1
+      · split at h2
+        · cases la with
+          | none => simp at h3
+          | some sp =>
+            simp only [SBeh.inst, DBeh, Option.map_some]
+            exact ⟨trivial, trivial, _, rfl, LSpec.progress_sound sp off len h3⟩
+        · simp at h2
+      · simp at h1
+
+/-- A list of scripts that pass the check is a disciplined table. -/
+theorem scriptTable_D (scripts : List SBeh) (h : ∀ s ∈ scripts, SBeh.disc none s = true) :
+    D (scriptTable scripts) := by
+  intro d data off len
+  simp only [scriptTable]
+  cases hs : scripts[d]? with
+  | none => simp [DBeh]
+  | some s =>
+    have := SBeh.disc_sound off len s none (h s (List.mem_of_getElem? hs))
+    simpa using this
 
 end Gp.Pkt
